@@ -78,6 +78,9 @@ def run(ctx):
             # every fallible step succeeded on this path without assuming anything but dependency outcomes
           finally:
             sn = sn_
+    # R01.7 the DH equation used by the composition is only assumed for reviewed group operations
+    for sn in ctx.suite_names:
+        an.group_dh_reviewed(ctx, rep, 'R01.7', sn)
     # R01.6 no spurious refusals
     for sn in ctx.suite_names:
         for which in ('creg_start', 'creg_finish', 'sreg_start', 'clog_start', 'clog_finish', 'slog_start', 'slog_finish'):
